@@ -557,6 +557,24 @@ fn ok_suite(suite: &str, a: &[&str]) -> Option<String> {
             let l2 = Line::new(pt(a[4], a[5]), pt(a[6], a[7]));
             verdict(|| embedded_graphics::primitives::verif_hooks::line_intersection(l1, l2))
         }
+        "ok_rrect_contains" => {
+            let sz = |k: usize| Size::new(u(a[k]), u(a[k + 1]));
+            let rr = RoundedRectangle::new(rc(a[0], a[1], a[2], a[3]), CornerRadii { top_left: sz(4), top_right: sz(6), bottom_right: sz(8), bottom_left: sz(10) });
+            verdict(|| rr.contains(pt(a[12], a[13])))
+        }
+        "ok_styled_circle" | "ok_styled_ellipse" => {
+            let st = PrimitiveStyleBuilder::<Rgb565>::new()
+                .stroke_color(Rgb565::new(1, 2, 3))
+                .fill_color(Rgb565::new(3, 2, 1))
+                .stroke_width(u(a[4]))
+                .stroke_alignment(match a[5] { "0" => StrokeAlignment::Inside, "1" => StrokeAlignment::Center, _ => StrokeAlignment::Outside })
+                .build();
+            if suite == "ok_styled_circle" {
+                verdict(|| { let _it = Circle::new(pt(a[0], a[1]), u(a[2])).into_styled(st).pixels(); })
+            } else {
+                verdict(|| { let _it = Ellipse::new(pt(a[0], a[1]), Size::new(u(a[2]), u(a[3]))).into_styled(st).pixels(); })
+            }
+        }
         "ok_index" => {
             let k = us(a[0]);
             verdict(|| (Point::new(3, 4)[k], Size::new(5, 6)[k]))
